@@ -1126,8 +1126,9 @@ pub fn gen_c18(rng: &mut Rng, np: usize) -> Node {
     let objv = format!("v{obj_id}");
     let prelude = lit_call(rng.below(np), format!("obj{obj_id}"), iters.clone(), Out::Scalar(objv.clone()));
     let k = id();
-    let kind = rng.below(8);
+    let kind = rng.below(14);
     let fpeer = rng.below(np);
+    let itx = if in_fold { " it90" } else { "" };
     let f: Node = match kind {
         0 => Node::Fail { code: 1 + rng.below(900) as i64, msg: format!("boom{k}") },
         1 | 2 => lit_call(fpeer, format!("fail{k}"), iters.clone(), if rng.chance(50) { Out::Scalar(format!("v{k}")) } else { Out::None }),
@@ -1155,7 +1156,15 @@ pub fn gen_c18(rng: &mut Rng, np: usize) -> Node {
             a.extend(iters.clone());
             lit_call(fpeer, format!("f{k}"), a, Out::None)
         }
-        _ => Node::Ap { src: Arg::Var { name: objv.clone(), lens: vec![Lens::Idx(3)] }, dst: format!("av{k}") },
+        7 => Node::Ap { src: Arg::Var { name: objv.clone(), lens: vec![Lens::Idx(3)] }, dst: format!("av{k}") },
+        // failures of the call triplet itself (peer / service / function taken from a value of the wrong type or
+        // through a lens that does not apply), of `fail` with a malformed error object, and of lenses in match / fold
+        8 => Node::Raw(format!("(call {objv}.$.a (\"svc\" \"f{k}\") [{itx}])")),
+        9 => Node::Raw(format!("(call %init_peer_id% ({objv}.$.c \"f{k}\") [{itx}])")),
+        10 => Node::Raw(format!("(call %init_peer_id% (\"svc\" {objv}.$.nosuch) [{itx}])")),
+        11 => Node::Raw(format!("(fail {objv})")),
+        12 => Node::Raw(format!("(match {objv}.$.nosuch 1 (null))")),
+        _ => Node::Raw(format!("(fold {objv}.$.nosuch it{k} (seq (null) (next it{k})))")),
     };
     let pk = id();
     let mut pargs = vec![Arg::ErrCode, Arg::ErrMsg];
